@@ -16,6 +16,9 @@ fn main() {
     if args.get(1).map(|s| s.as_str()) == Some("child_include") {
         std::process::exit(searches::include_child(args.get(2).map(|s| s.as_str()).unwrap_or(""), args.get(3).map(|s| s.as_str()).unwrap_or("")));
     }
+    if args.get(1).map(|s| s.as_str()) == Some("child_compile") {
+        std::process::exit(searches::compile_child(args.get(2).map(|s| s.as_str()).unwrap_or("")));
+    }
     let res: Value = match args.get(1).map(|s| s.as_str()) {
         Some("search") => searches::search(&args[2], args.get(3).and_then(|s| s.parse().ok()).unwrap_or(0)),
         Some("input") => searches::run_input(&args[2], &serde_json::from_str(&args[3]).unwrap_or(Value::Null)),
